@@ -382,7 +382,13 @@ namespace c09
                 // when the second is made
                 const std::string &e1 = igris::serialize(v);
                 const std::string &e2 = igris::serialize(T());
-                if (e1 != conv) kit::violate("C09/writers-disagree@archive", "the result of igris::serialize(obj) changed when a second value of the same type was serialized while it was still in use");
+                std::string a1 = e1, a2 = conv;
+                if constexpr (std::is_same<T, long double>::value)
+                { // the padding bytes of a long double image are indeterminate and may differ between two encodings
+                    normalise_long_double_tail(a1, 0, "archive-bufwriter");
+                    normalise_long_double_tail(a2, 0, "archive-bufwriter");
+                }
+                if (a1 != a2) kit::violate("C09/writers-disagree@archive", "the result of igris::serialize(obj) changed when a second value of the same type was serialized while it was still in use");
                 (void)e2;
             }
             if constexpr (std::is_same<T, long double>::value)
